@@ -22,7 +22,7 @@ def main(tier):
     pts = fam['points']
     scenes = []
     for mode, sets in ((1, fam['scenes']), (0, fam['pscenes'])):
-        for st in rnd.sample(sets, min(len(sets), 60 if quick else 1500)):
+        for st in rnd.sample(sets, min(len(sets), 150 if quick else 1500)):
             shapes = [RC.rect_poly(r) for r in st] if mode == 1 else st
             free = [p for p in pts if not any(RC.in_closed_convex(p, poly) for poly in shapes)]
             conns = []
@@ -30,12 +30,12 @@ def main(tier):
                 a, b = rnd.sample(free, 2)
                 conns.append((a[0], a[1], 15, b[0], b[1], 15))
             scenes.append({'mode': mode, 'P': rnd.choice([0, 3, 10]) if mode == 0 else rnd.choice([1, 10]), 'buf': 0, 'opts': rnd.randint(0, 31) & ~1, 'shapes': shapes, 'conns': conns})
-    for _ in range(80 if quick else 2500):
+    for _ in range(200 if quick else 2500):
         s = c03.random_scene(rnd, rnd.randint(0, 1))
         s['opts'] &= ~1
         scenes.append(s)
     # two ends of different connectors inside one shape, on one horizontal or vertical line (ends inside shapes are in C03's quantifier)
-    for _ in range(80 if quick else 2500):
+    for _ in range(200 if quick else 2500):
         s = c03.random_scene(rnd, rnd.randint(0, 1))
         s['opts'] &= ~1
         boxes = [RC.poly_rect(sh) for sh in s['shapes'] if len(sh) == 4]
@@ -59,7 +59,7 @@ def main(tier):
         s['conns'] = conns
         scenes.append(s)
     # direction-restricted free endpoints (orthogonal mode): the masks turn with the scene
-    for _ in range(80 if quick else 2500):
+    for _ in range(200 if quick else 2500):
         s = c03.random_scene(rnd, 1)
         s['opts'] &= ~1
         masks = [1, 2, 4, 8, 3, 12, 5, 10, 15]
@@ -107,7 +107,7 @@ def main(tier):
     nvpsc = len(recs) - nroute
     # ---- layouts, run twice with heap churn and an unrelated layout in between
     cases = []
-    for i in range(120 if quick else 3000):
+    for i in range(300 if quick else 3000):
         c = LC.gen_case(rnd, nmax=10)
         c['cons'] = [k for k in c['cons'] if k[0] != 6]          # (F31: fixed-relative conflicts may not terminate)
         c['flags'] = (c['flags'] | 16) & ~4
